@@ -358,7 +358,7 @@ func mkURL(annexI bool, parts []string, asset, file string, now int64) string {
 }
 
 func genH(t *rapid.T) (HCase, *env.Env) {
-	tg := gen.Target(t, assetgen.Opts{Audio: []string{"", "aac"}, MinFrames: 25, MaxFrames: 235}, 50, []string{"testpic_2s", "testpic_6s", "testpic_8s", "testpic_alt_seg_dur_stl", "bbb_hevc_ac3_8s", "WAVE/vectors/cfhd_sets/14.985_29.97_59.94/t1/2022-10-17"})
+	tg := gen.Target(t, assetgen.Opts{Audio: []string{"", "aac"}, MinFrames: 25, MaxFrames: 235, AllowText: true}, 50, []string{"testpic_2s", "testpic_6s", "testpic_8s", "testpic_alt_seg_dur_stl", "bbb_hevc_ac3_8s", "WAVE/vectors/cfhd_sets/14.985_29.97_59.94/t1/2022-10-17"})
 	e, err := env.Get(tg)
 	if err != nil {
 		t.Fatalf("HARNESS: %v", err)
@@ -497,19 +497,23 @@ func checkH(c HCase, e *env.Env) (*hx.Violation, hinfo) {
 			inf.events++
 		}
 	}
-	// no other representation carries events: audio segments over one minute
+	// no other representation carries events: audio and subtitle segments over one minute (one representation per kind and codec)
+	seenKind := map[string]bool{}
 	for _, id := range e.Asset.RepIDs() {
 		ar := e.Asset.Reps[id]
-		if ar.ContentType != "audio" {
+		if (ar.ContentType != "audio" && ar.ContentType != "text") || seenKind[ar.ContentType+ar.Codecs] {
 			continue
 		}
+		seenKind[ar.ContentType+ar.Codecs] = true
 		atl := refmodel.NewTimeline(e.Asset, ar, c.Cfg)
-		w := loT / atl.LoopTicks()
-		for k := w * atl.N(); atl.Start(k) < loT+60*ts && k < w*atl.N()+40; k++ {
-			now := gen.CeilDivU(atl.AvailU(k), ts) + 1
+		ats := atl.TS() // a subtitle track has a timescale of its own
+		loA := loT * ats / ts
+		w := loA / atl.LoopTicks()
+		for k := w * atl.N(); atl.Start(k) < loA+60*ats && k < w*atl.N()+40; k++ {
+			now := gen.CeilDivU(atl.AvailU(k), ats) + 1
 			r := e.Srv.Get(mkURL(c.AnnexI, parts, e.Asset.Path, atl.SegName(ar, k), now))
 			if r.Code != 200 {
-				return hx.V("segment-status", "audio %s -> %v", atl.SegName(ar, k), r), inf
+				return hx.V("segment-status", "%s %s -> %v", ar.ContentType, atl.SegName(ar, k), r), inf
 			}
 			seg, err := mp4x.Parse(r.Body, ar.Trex)
 			if err != nil {
@@ -517,11 +521,10 @@ func checkH(c HCase, e *env.Env) (*hx.Violation, hinfo) {
 			}
 			for _, fr := range seg.Frags {
 				if len(fr.Emsgs) > 0 {
-					return hx.V("event-in-audio", "audio segment %s carries an emsg", atl.SegName(ar, k)), inf
+					return hx.V("event-in-"+ar.ContentType, "%s segment %s carries an emsg", ar.ContentType, atl.SegName(ar, k)), inf
 				}
 			}
 		}
-		break
 	}
 	return nil, inf
 }
